@@ -115,7 +115,7 @@ def inSetSpec (σ : St) (n : String) : Bool :=
   | none => false
   | some ivs => ivs.any fun iv => (specOn σ iv "UTC").getD false
 
-/-- F9 diagnostic: at this instant some zone's local calendar lacks the last day of the
+/-- F12 diagnostic: at this instant some zone's local calendar lacks the last day of the
     month, so the pinned `daysInMonth` (evaluated in the location) is off. -/
 def f9 (σ : St) : String := if σ.zs.any (fun i => i.dimLoc ≠ i.dim) then "@month-end-skipped-in-zone" else ""
 
